@@ -68,7 +68,25 @@ def grep_gate():
                     for i, line in enumerate(open(p, encoding="utf8"), 1):
                         if FORBIDDEN.search(line):
                             bad.append(f"{os.path.relpath(p, COQ)}:{i}: {line.strip()}")
+                    bad += [f"{os.path.relpath(p, COQ)}:{i}: {t} (outside a Section: declares an axiom)"
+                            for i, t in _toplevel_variables(open(p, encoding="utf8").read())]
     return bad
+
+
+def _toplevel_variables(src):
+    """Variable / Hypothesis / Context lines that are not inside a Section (they would be global assumptions).
+    Approximate and fail-closed: `End X.` of a Module can only lower the depth, i.e. flag more."""
+    src = re.sub(r"\(\*.*?\*\)", lambda m: "\n" * m.group(0).count("\n"), src, flags=re.S)
+    depth, out = 0, []
+    for i, line in enumerate(src.splitlines(), 1):
+        t = line.strip()
+        if re.match(r"Section\s+\w+", t):
+            depth += 1
+        elif re.match(r"End\s+\w+\s*\.", t) and depth > 0:
+            depth -= 1
+        if depth <= 0 and re.match(r"(Variables?|Hypothes[ie]s|Context)\b", t):
+            out.append((i, t[:100]))
+    return out
 
 
 def ensure_makefile():
